@@ -280,7 +280,7 @@ Proof.
     - apply Core_do_close. destruct started; [apply Core_push|]; exact C.
     - eapply Bal_frame; [..|exact B1]; destruct started; reflexivity. }
   unfold on_done. destruct o as [keep status| |status| | | | ].
-  - apply finish_fresh_inv; assumption.
+  - destruct started; [exact EP|apply finish_fresh_inv; assumption].
   - destruct started.
     + destruct (closed s); [exact EP|].
       apply payload_check_inv.
@@ -444,7 +444,7 @@ Proof.
   { intros t stt status k Ht. unfold finish_fresh. destruct (closed t) eqn:Ct; [apply EX; congruence|].
     cbn [payload_check]. apply AR; [destruct stt; cbn; congruence|]. cbn [ka set_ka]. apply close_of_err_ka. }
   unfold on_done. destruct o as [keep status| |status| | | | ].
-  - apply FF; exact C3.
+  - destruct sd; [apply EX; cbn; congruence|apply FF; exact C3].
   - destruct sd.
     + destruct (closed s) eqn:Cs; [apply EX; cbn; congruence|]. cbn [payload_check]. apply AR; [cbn; congruence|reflexivity].
     + apply FF; exact C3.
